@@ -125,6 +125,53 @@ def judge_const(rep, fi, what, v, power_of_const: Mono, target: Mono, node=None)
     rep.check(got == target, "POWER-LAW", fi, construct, f"substitute for an all-zero item has power {target.show()}", f"substitute for an all-zero item has power {got.show()} instead of {target.show()}", node=node)
 
 
+#: input shapes the batch-dispatch predicate is evaluated on (own arithmetic over nested lists of that shape)
+DISPATCH_SHAPES = ((4,), (1,), (1, 4), (2, 4), (3, 4), (7, 1), (1, 2, 4), (2, 2, 4), (5, 2, 2, 3))
+
+
+def _zeros(shape):
+    return [_zeros(shape[1:]) for _ in range(shape[0])] if shape else 0.0
+
+
+def dispatch_rule(rep: Report, rule: str, fwd: FuncInfo, batched_marker) -> Optional[ast.If]:
+    """The limit is per item: the branch that applies the single-item routine to the whole tensor may only be taken when
+    the tensor *is* one item (1-D input, or a leading axis of length 1); an input with a leading batch axis of two or more
+    items must take the per-item branch.  The predicate is evaluated on DISPATCH_SHAPES."""
+    from ..constfold import Folder, Unfoldable
+
+    ifs = [s for s in fwd.body if isinstance(s, ast.If)]
+    disp = ifs[0] if ifs else None
+    if disp is None or not disp.orelse:
+        rep.undecided(rule, fwd, "batch dispatch", "no two-armed dispatch statement at the top of forward (code shape not recognised)", node=fwd.node)
+        return None
+    in_body, in_else = batched_marker(disp.body), batched_marker(disp.orelse)
+    if in_body == in_else:
+        rep.undecided(rule, fwd, f"batch dispatch: {unparse(disp.test)}", "cannot tell the per-item arm from the whole-tensor arm", node=disp)
+        return disp
+    bad, und = [], []
+    for shp in DISPATCH_SHAPES:
+        try:
+            t = Folder({"x": _zeros(shp)}).fold(disp.test)
+        except Unfoldable as exc:
+            und.append(f"{shp}: {exc}")
+            continue
+        if isinstance(t, list):
+            und.append(f"{shp}: tensor-valued test")
+            continue
+        per_item = bool(t) if in_body else not bool(t)
+        if len(shp) == 1 and per_item:
+            bad.append(f"a 1-D signal of shape {shp} is split into its samples")
+        elif len(shp) >= 2 and shp[0] >= 2 and not per_item:
+            bad.append(f"an input of shape {shp} ({shp[0]} items) is processed as one item: the limit holds only for the batch as a whole")
+    if bad:
+        rep.violation(rule, fwd, f"batch dispatch: {unparse(disp.test)}", "; ".join(bad[:3]), node=disp)
+    elif und:
+        rep.undecided(rule, fwd, f"batch dispatch: {unparse(disp.test)}", "predicate outside the evaluator: " + "; ".join(und[:2]), node=disp)
+    else:
+        rep.ok(rule, fwd, f"batch dispatch: {unparse(disp.test)}", f"evaluated on {len(DISPATCH_SHAPES)} shapes: every input with two or more leading items takes the per-item arm, a 1-D signal is one item", node=disp)
+    return disp
+
+
 def analyse_power_class(repo: Repo, rep: Report, cname: str, attr: str, factor_attr: str, sym: str, average: bool) -> int:
     ci = repo.cls(PW, cname)
     T = Mono.sym(sym)
@@ -140,14 +187,11 @@ def analyse_power_class(repo: Repo, rep: Report, cname: str, attr: str, factor_a
     cur = (E / N) if average else E
     constpow = ONE if average else N
     # dispatch test
-    ifs = [s for s in fwd.body if isinstance(s, ast.If)]
-    disp = ifs[0] if ifs else None
-    ok = disp is not None and unparse(disp.test) == "x.dim() > 1 and x.shape[0] > 1"
-    rep.shape(ok, False, "POWER-LAW", fwd, f"batch dispatch: {unparse(disp.test) if disp else '(none)'}", "batched path only for a real batch; everything else is one item", "batch / single-item dispatch changed", node=disp or fwd.node)
+    disp = dispatch_rule(rep, "POWER-LAW", fwd, batched_marker=lambda b: any(isinstance(c, ast.Call) and call_name(c) in ("torch.sum", "torch.mean") and any(k.arg == "dim" for k in c.keywords) for s_ in b for c in ast.walk(s_)))
     n += 1
     for cplx in (False, True):
         for zero in (False, True):
-            atoms = {"x.dim() > 1 and x.shape[0] > 1": True, "torch.is_complex(x)": cplx, "torch.any(zero_mask)": zero}
+            atoms = {(unparse(disp.test) if disp is not None else "x.dim() > 1 and x.shape[0] > 1"): True, "torch.is_complex(x)": cplx, "torch.any(zero_mask)": zero}
             it = CBScaling(fwd, repo, cls=ci, config=cfg(atoms), attr_values=attrs)
             it.run({"x": SV("sig", ONE), "args": NONE_V, "kwargs": NONE_V})
             for v, r, _ in it.returns:
@@ -318,6 +362,8 @@ def rule_papr(repo: Repo, rep: Report) -> int:
     rep.check(okm, "PAPR", fi, f"final mask `{mname}`: {[unparse(c) for (c, l, r) in finals]}", "samples with |v| > bound are exactly the ones clipped to the bound", "the final mask does not compare |v| with the bound it clips to", node=st)
     n += 1
     fwd = repo.method(ci, "forward")
+    dispatch_rule(rep, "PAPR", fwd, batched_marker=lambda b: any((isinstance(c, ast.Call) and call_name(c) == "torch.vmap") or (isinstance(c, ast.Subscript) and unparse(c) == "x[i]") for s_ in b for c in ast.walk(s_)))
+    n += 1
     calls = [c for c in ast.walk(fwd.node) if isinstance(c, ast.Call) and attr_chain(c.func) == "self._apply_constraint_to_single_item"]
     args0 = sorted({unparse(c.args[0]) for c in calls if c.args})
     rep.expect(args0 == ["single_x", "x", "x[i]"], "PAPR", fwd, f"per-item application on {args0}", "vmap over the batch axis / per-row fallback / single item", "the PAPR constraint is no longer applied to each batch item separately", node=fwd.node)
@@ -408,8 +454,68 @@ def rule_factories(repo: Repo, rep: Report) -> int:
     return n
 
 
+#: the factory parameter that carries the limit of each stage class
+LIMIT_PARAM = {"PAPRConstraint": "max_papr", "PeakAmplitudeConstraint": "peak_amplitude", "TotalPowerConstraint": "total_power", "PerAntennaPowerConstraint": "uniform_power", "AveragePowerConstraint": "average_power", "SpectralMaskConstraint": "spectral_mask"}
+SAMPLE_LIMITS = {"max_papr": 3.7, "peak_amplitude": 0.9, "total_power": 1.3, "uniform_power": 0.6, "average_power": 0.8, "num_antennas": 4}
+
+
+def rule_limit_forward(repo: Repo, rep: Report) -> int:
+    """Each stage of a factory-built composite enforces the limit the caller configured: the limit argument of every stage
+    constructor, evaluated (own arithmetic) for sample parameter values and both values of every boolean option, equals
+    the factory parameter of that meaning."""
+    from ..constfold import Folder, Unfoldable
+    from itertools import product
+
+    n = 0
+    for fname in ("create_ofdm_constraints", "create_mimo_constraints"):
+        fi = repo.func(CU, fname)
+        local = {}
+        for st in stmts_of(fi.body):
+            if isinstance(st, ast.Assign) and len(st.targets) == 1 and isinstance(st.targets[0], ast.Name) and st.targets[0].id not in fi.params:
+                local.setdefault(st.targets[0].id, []).append(st.value)
+        local = {k: v[0] for k, v in local.items() if len(v) == 1}
+        flags = [p for p in fi.params if p.startswith(("is_", "use_", "enable"))]
+        ctors = [c.args[0] for c in ast.walk(fi.node) if isinstance(c, ast.Call) and isinstance(c.func, ast.Attribute) and c.func.attr == "append" and c.args and isinstance(c.args[0], ast.Call)]
+        for ctor in ctors:
+            cname = call_name(ctor) or "?"
+            par = LIMIT_PARAM.get(cname)
+            arg = ctor.args[0] if ctor.args else next((k.value for k in ctor.keywords if k.arg == par), ctor.keywords[0].value if ctor.keywords else None)
+            what = f"{fname}: {unparse(ctor)}"
+            n += 1
+            if par is None or arg is None or par not in fi.params:
+                rep.undecided("LIMIT-FORWARD", fi, what, "stage class without a limit-parameter entry", node=ctor)
+                continue
+            if isinstance(arg, ast.Name) and arg.id == par:
+                rep.ok("LIMIT-FORWARD", fi, what, f"the stage enforces the configured `{par}`", node=ctor)
+                continue
+            if par == "spectral_mask":
+                rep.undecided("LIMIT-FORWARD", fi, what, "mask argument is not the parameter itself", node=ctor)
+                continue
+            bad, und = [], []
+            for combo in product([True, False], repeat=len(flags)):
+                names = dict(local)
+                names.update(SAMPLE_LIMITS)
+                names.update(dict(zip(flags, combo)))
+                try:
+                    v = Folder(names).fold(arg)
+                except Unfoldable as exc:
+                    und.append(str(exc))
+                    continue
+                if not (isinstance(v, (int, float)) and abs(v - SAMPLE_LIMITS[par]) < 1e-12):
+                    bad.append(f"with {dict(zip(flags, combo))} and {par}={SAMPLE_LIMITS[par]} the stage is built with {v!r}")
+            if bad:
+                rep.violation("LIMIT-FORWARD", fi, what, f"the limit handed to {cname} is not the configured `{par}`: {bad[0]}", node=ctor)
+            elif und:
+                rep.undecided("LIMIT-FORWARD", fi, what, f"limit argument outside the evaluator: {und[0]}", node=ctor)
+            else:
+                rep.ok("LIMIT-FORWARD", fi, what, f"evaluates to the configured `{par}` for every option", node=ctor)
+    rep.floor("factory stage constructors", n, 4)
+    return n
+
+
 def run(repo: Repo, rep: Report, tier: str) -> None:
-    n = analyse_power_class(repo, rep, "TotalPowerConstraint", "total_power", "total_power_factor", "T", False)
+    n = rule_limit_forward(repo, rep)
+    n += analyse_power_class(repo, rep, "TotalPowerConstraint", "total_power", "total_power_factor", "T", False)
     n += analyse_power_class(repo, rep, "AveragePowerConstraint", "average_power", "power_avg_factor", "A", True)
     n += rule_per_antenna(repo, rep)
     n += rule_peak(repo, rep)
